@@ -245,3 +245,121 @@ pub fn real_walk(arch: &str, regs: &[(String, u64)], valid: &str, stackbase: u64
         names.iter().filter(|n| *n != "<all>").map(|n| format!("{}={}", n, get(n))).collect::<Vec<_>>().join(",")
     )
 }
+
+/// Front-end (f), C07 round 4: one x86 `walk_stack` step from a *frame list*.  `below` = the frames
+/// under the callee (innermost first), each given by its `StackFrame::parameter_size` (None = the frame's
+/// code has no FUNC/PUBLIC record); empty = the callee is the context frame.  The callee is appended with
+/// the given registers/validity (its `instruction` is eip - 1 unless it is the context frame, as
+/// x86::get_caller_frame leaves it), then `walk_stack` is resumed: it symbolicates the callee, picks
+/// the grand-callee out of `CallStack::frames` and goes through x86::get_caller_frame →
+/// CfiStackWalker::from_ctx_and_args → SymbolFile::walk_frame.  `funcs` are extra symbol-file lines
+/// (FUNC records) placed in front of `symtext`.  Returns the new frame if it was produced by CFI.
+pub fn real_walk_from(
+    below: &[Option<u32>],
+    regs: &[(String, u64)],
+    valid: &str,
+    stackbase: u64,
+    stack: &[u8],
+    symtext: &str,
+) -> String {
+    let mut c = format::CONTEXT_X86::default();
+    for (k, v) in regs {
+        c.set_register(k, *v as u32).expect("x86 reg");
+    }
+    let v = mk_valid(&c, valid);
+    let callee_ctx = MinidumpContext { raw: MinidumpRawContext::X86(c.clone()), valid: v };
+    let modules = MinidumpModuleList::from_modules(vec![MinidumpModule::new(MODULE_BASE, MODULE_SIZE, "m1")]);
+    let mut symbols = HashMap::new();
+    symbols.insert("m1".to_string(), format!("MODULE Linux x86 ABCD1234 m1\n{}", symtext));
+    let stack_memory = MinidumpMemory {
+        desc: Default::default(),
+        base_address: stackbase,
+        size: stack.len() as u64,
+        bytes: stack,
+        endian: scroll::LE,
+    };
+    let system_info = SystemInfo {
+        os: Os::Windows,
+        os_version: None,
+        os_build: None,
+        cpu: Cpu::X86,
+        cpu_info: None,
+        cpu_microcode_version: None,
+        cpu_count: 1,
+    };
+    let symbolizer = Symbolizer::new(string_symbol_supplier(symbols));
+    // the frames below the callee: registers do not matter to the step under test (only parameter_size is read)
+    let mut frames = Vec::new();
+    for (i, ps) in below.iter().enumerate() {
+        let mut bc = format::CONTEXT_X86::default();
+        bc.eip = (MODULE_BASE as u32) + 0x8000 + 0x10 * i as u32;
+        bc.esp = (stackbase as u32).wrapping_sub(0x100).wrapping_add(0x10 * i as u32);
+        let bctx = MinidumpContext { raw: MinidumpRawContext::X86(bc), valid: MinidumpContextValidity::All };
+        let mut f = minidump_unwind::StackFrame::from_context(
+            bctx,
+            if i == 0 { FrameTrust::Context } else { FrameTrust::CallFrameInfo },
+        );
+        if i > 0 {
+            f.instruction -= 1;
+        }
+        f.parameter_size = *ps;
+        frames.push(f);
+    }
+    let mut callee = minidump_unwind::StackFrame::from_context(
+        callee_ctx,
+        if below.is_empty() { FrameTrust::Context } else { FrameTrust::CallFrameInfo },
+    );
+    if !below.is_empty() {
+        callee.instruction = callee.instruction.wrapping_sub(1);
+    }
+    frames.push(callee);
+    let n = frames.len();
+    let mut cs = CallStack::with_context(MinidumpContext {
+        raw: MinidumpRawContext::X86(c),
+        valid: MinidumpContextValidity::All,
+    });
+    cs.frames = frames;
+    let r = catch_unwind(AssertUnwindSafe(|| {
+        block_on(walk_stack(
+            0,
+            move |idx: usize, _f: &minidump_unwind::StackFrame| {
+                if idx >= n {
+                    std::panic::panic_any(StopWalk);
+                }
+            },
+            &mut cs,
+            Some(UnifiedMemory::Memory(&stack_memory)),
+            &modules,
+            &system_info,
+            &symbolizer,
+        ))
+    }));
+    if let Err(e) = r {
+        if e.downcast_ref::<StopWalk>().is_none() {
+            std::panic::resume_unwind(e);
+        }
+    }
+    if cs.frames.len() <= n || cs.frames[n].trust != FrameTrust::CallFrameInfo {
+        return "N".to_string();
+    }
+    let f = &cs.frames[n];
+    let names: Vec<String> = match &f.context.valid {
+        MinidumpContextValidity::All => vec!["<all>".to_string()],
+        MinidumpContextValidity::Some(s) => {
+            let mut v: Vec<String> = s.iter().map(|x| x.to_string()).collect();
+            v.sort();
+            v
+        }
+    };
+    let get = |nm: &str| -> u64 {
+        match &f.context.raw {
+            MinidumpRawContext::X86(c) => c.get_register_always(nm) as u64,
+            _ => panic!("arch"),
+        }
+    };
+    format!(
+        "S|valid={}|regs={}",
+        names.join(","),
+        names.iter().filter(|n| *n != "<all>").map(|n| format!("{}={}", n, get(n))).collect::<Vec<_>>().join(",")
+    )
+}
